@@ -151,16 +151,17 @@ class FloatValidatorBase(FieldValidator[_P, float], Generic[_P, _C], metaclass=A
             ValueError: Value cannot be precisely represented with this datatype
         """
 
-        # Note: This may not be worth it since this is a rare overflow case.
-        try:
-            if math.isinf(self._ctype(max(value)).value) or math.isinf(
-                self._ctype(min(value)).value
-            ):
+        # Validate every element: max()/min() are not bounds of the sequence when
+        # its first element is NaN (every comparison with NaN is False).
+        for v in value:
+            try:
+                overflow = math.isinf(self._ctype(v).value)
+            except TypeError:
+                raise TypeError(f"Expected {value!r} to contain all float types.")
+            if overflow:
                 raise ValueError(
                     f"{value} contains value(s) that can not be represented as a {type(self).__name__}"
                 )
-        except TypeError:
-            raise TypeError(f"Expected {value!r} to contain all float types.")
 
     def __repr__(self):
         return f"{type(self).__name__} at 0x{id(self):016X}"
